@@ -192,6 +192,7 @@ structure TInv (esc : Bool) (args : Nat → Arg α K) (progs : Nat → List Step
   walkOk : th.wrote = false → ∀ w, th.walk = some w → w.ok = true
   obs_ : ∀ o ∈ th.obs, o.ok = true → ∃ v, g.pubs[o.at_]? = some v ∧ o.res = answer (args t) o.kv v
   obsOk : th.wrote = false → ∀ o ∈ th.obs, o.ok = true
+  obsKv : ∀ o ∈ th.obs, o.kv = true → Step.readIndex ∈ progs t ∨ Step.readAlias ∈ progs t
   eff_ : th.wrote = false → ∀ v, effect th.todo (args t) v = effect (progs t) (args t) v
   crit : g.writer = some t → t ∉ g.done ∧
     ∀ last, g.pubs.getLast? = some last → effect th.todo (args t) (view g.sh) = effect (progs t) (args t) last
@@ -244,7 +245,7 @@ theorem TInv.frame {g g' : Glob α K} {u : Nat} {th : Thread α} (h : TInv esc a
       dw := fun e => h.dw (hd.1 e), rd := fun e => by rw [hlen (hr.1 e)]; exact h.rd (hr.1 e),
       iav_ := fun e => by rw [hm]; exact ⟨(h.iav_ e).1, by rw [hidx (h.iav_ e).1]; exact (h.iav_ e).2⟩,
       av_ := fun e => halias _ _ (h.av_ e), walkHead := h.walkHead,
-      walk_ := ?_, walkOk := h.walkOk, obs_ := ?_, obsOk := h.obsOk, eff_ := h.eff_, crit := ?_ }
+      walk_ := ?_, walkOk := h.walkOk, obs_ := ?_, obsOk := h.obsOk, obsKv := h.obsKv, eff_ := h.eff_, crit := ?_ }
   · intro w hw' hok
     obtain ⟨ha, hacc⟩ := h.walk_ w hw' hok
     refine ⟨halias _ _ ha, fun v hv => ?_⟩
@@ -333,15 +334,15 @@ theorem TInv.advance {g : Glob α K} (_hg : GInv esc args progs v0 g) {t : Nat} 
     (hsafe : safe esc (modeOf g t) th.wrote th.av th.iav r = true)
     (heff : ∀ v, stepEffect a (args t) v = v) (hwalk : th.walk = none) (obs' : List (Obs α))
     (hobs : obs' = th.obs ∨ ∃ o, obs' = th.obs ++ [o] ∧ (th.wrote = false → o.ok = true) ∧
-      (o.ok = true → ∃ v, g.pubs[o.at_]? = some v ∧ o.res = answer (args t) o.kv v)) :
+      (o.ok = true → ∃ v, g.pubs[o.at_]? = some v ∧ o.res = answer (args t) o.kv v) ∧ (a = .readIndex ∨ a = .readAlias)) :
     TInv esc args progs g t { th with todo := r, obs := obs' } := by
   have hsuf := suffix_tail h.suffix htodo
   refine
     { suffix := hsuf.1, safe_ := hsafe, wr := h.wr, wlock := h.wlock, dw := h.dw, rd := h.rd, iav_ := h.iav_, av_ := h.av_,
       walkHead := fun w hw => by simp [hwalk] at hw, walk_ := fun w hw => by simp [hwalk] at hw,
-      walkOk := fun _ w hw => by simp [hwalk] at hw, obs_ := ?_, obsOk := ?_, eff_ := ?_, crit := ?_ }
+      walkOk := fun _ w hw => by simp [hwalk] at hw, obs_ := ?_, obsOk := ?_, obsKv := ?_, eff_ := ?_, crit := ?_ }
   · intro o ho hok
-    rcases hobs with e | ⟨o', e, _, h2⟩
+    rcases hobs with e | ⟨o', e, _, h2, _⟩
     · rw [e] at ho; exact h.obs_ o ho hok
     · rw [e] at ho
       rcases List.mem_append.1 ho with ho | ho
@@ -354,6 +355,15 @@ theorem TInv.advance {g : Glob α K} (_hg : GInv esc args progs v0 g) {t : Nat} 
       rcases List.mem_append.1 ho with ho | ho
       · exact h.obsOk hw o ho
       · simp at ho; subst ho; exact h1 hw
+  · intro o ho hkv
+    rcases hobs with e | ⟨o', e, _, _, h3⟩
+    · rw [e] at ho; exact h.obsKv o ho hkv
+    · rw [e] at ho
+      rcases List.mem_append.1 ho with ho | ho
+      · exact h.obsKv o ho hkv
+      · rcases h3 with e3 | e3
+        · left; rw [← e3]; exact hsuf.2
+        · right; rw [← e3]; exact hsuf.2
   · intro hw v
     have := h.eff_ hw v
     rw [htodo] at this
@@ -376,7 +386,7 @@ theorem TInv.advanceA {g : Glob α K} {t : Nat} {th : Thread α} (h : TInv esc a
   refine
     { suffix := hsuf.1, safe_ := hsafe, wr := h.wr, wlock := h.wlock, dw := h.dw, rd := h.rd, iav_ := hiav, av_ := hav,
       walkHead := fun w hw => by simp [hwalk] at hw, walk_ := fun w hw => by simp [hwalk] at hw,
-      walkOk := fun _ w hw => by simp [hwalk] at hw, obs_ := h.obs_, obsOk := h.obsOk, eff_ := ?_, crit := ?_ }
+      walkOk := fun _ w hw => by simp [hwalk] at hw, obs_ := h.obs_, obsOk := h.obsOk, obsKv := h.obsKv, eff_ := ?_, crit := ?_ }
   · intro hw v
     have := h.eff_ hw v
     rw [htodo] at this
@@ -392,14 +402,14 @@ theorem TInv.advanceA {g : Glob α K} {t : Nat} {th : Thread α} (h : TInv esc a
 theorem TInv.finishWalk {g : Glob α K} {t : Nat} {th : Thread α} (h : TInv esc args progs g t th)
     {a : Step} {r : List Step} (htodo : th.todo = a :: r)
     (hsafe : safe esc (modeOf g t) th.wrote th.av th.iav r = true)
-    (heff : ∀ v, stepEffect a (args t) v = v) (o : Obs α) (hok : th.wrote = false → o.ok = true)
+    (heff : ∀ v, stepEffect a (args t) v = v) (o : Obs α) (hkv : o.kv = false) (hok : th.wrote = false → o.ok = true)
     (hres : o.ok = true → ∃ v, g.pubs[o.at_]? = some v ∧ o.res = answer (args t) o.kv v) :
     TInv esc args progs g t { th with todo := r, walk := none, obs := th.obs ++ [o] } := by
   have hsuf := suffix_tail h.suffix htodo
   refine
     { suffix := hsuf.1, safe_ := hsafe, wr := h.wr, wlock := h.wlock, dw := h.dw, rd := h.rd, iav_ := h.iav_, av_ := h.av_,
       walkHead := fun w hw => by simp at hw, walk_ := fun w hw => by simp at hw,
-      walkOk := fun _ w hw => by simp at hw, obs_ := ?_, obsOk := ?_, eff_ := ?_, crit := ?_ }
+      walkOk := fun _ w hw => by simp at hw, obs_ := ?_, obsOk := ?_, obsKv := ?_, eff_ := ?_, crit := ?_ }
   · intro o' ho hok'
     rcases List.mem_append.1 ho with ho | ho
     · exact h.obs_ o' ho hok'
@@ -408,6 +418,10 @@ theorem TInv.finishWalk {g : Glob α K} {t : Nat} {th : Thread α} (h : TInv esc
     rcases List.mem_append.1 ho with ho | ho
     · exact h.obsOk hw o' ho
     · simp at ho; subst ho; exact hok hw
+  · intro o' ho hkv'
+    rcases List.mem_append.1 ho with ho | ho
+    · exact h.obsKv o' ho hkv'
+    · simp at ho; subst ho; rw [hkv] at hkv'; cases hkv'
   · intro hw v
     have := h.eff_ hw v
     rw [htodo] at this
@@ -453,7 +467,7 @@ theorem step_readIndex (hI : Inv esc args progs v0 c) (htodo : (c.th t).todo = .
   rw [htodo] at hs
   simp only [safe, Bool.and_eq_true, bne_iff_ne, ne_eq] at hs
   refine inv_upd hI t _ (ht.advance hI.glob htodo hs.2 (fun _ => rfl) (walk_none_of_head ht htodo (by decide) (by decide)) _
-    (Or.inr ⟨_, rfl, ?_, ?_⟩))
+    (Or.inr ⟨_, rfl, ?_, ?_, Or.inl rfl⟩))
   · intro hw
     -- never been a writer: the mode is `r`
     have hnw : c.g.writer ≠ some t := fun e => by have := ht.wr e; rw [hw] at this; cases this
@@ -474,7 +488,7 @@ theorem step_readAlias (hI : Inv esc args progs v0 c) (htodo : (c.th t).todo = .
   simp only [safe, Bool.and_eq_true, bne_iff_ne, ne_eq] at hs
   have hia := (ht.iav_ hs.1.2).2
   refine inv_upd hI t _ (ht.advance hI.glob htodo hs.2 (fun _ => rfl) (walk_none_of_head ht htodo (by decide) (by decide)) _
-    (Or.inr ⟨_, rfl, ?_, ?_⟩))
+    (Or.inr ⟨_, rfl, ?_, ?_, Or.inr rfl⟩))
   · intro hw
     have hnw : c.g.writer ≠ some t := fun e => by have := ht.wr e; rw [hw] at this; cases this
     have : t ∈ c.g.readers := by
@@ -531,7 +545,7 @@ theorem step_walk (hI : Inv esc args progs v0 c) {a : Step} (htodo : (c.th t).to
     refine
       { suffix := ht.suffix, safe_ := ht.safe_, wr := ht.wr, wlock := ht.wlock, dw := ht.dw, rd := ht.rd, iav_ := ht.iav_,
         av_ := ht.av_, walkHead := fun w _ => ⟨r, by rcases ha with e | e <;> subst e <;> simp [htodo]⟩,
-        walk_ := ?_, walkOk := ?_, obs_ := ht.obs_, obsOk := ht.obsOk, eff_ := ht.eff_, crit := ht.crit }
+        walk_ := ?_, walkOk := ?_, obs_ := ht.obs_, obsOk := ht.obsOk, obsKv := ht.obsKv, eff_ := ht.eff_, crit := ht.crit }
     · intro w hw' hok
       simp only [Option.some.injEq] at hw'
       subst hw'
@@ -548,7 +562,7 @@ theorem step_walk (hI : Inv esc args progs v0 c) {a : Step} (htodo : (c.th t).to
         Inv esc args progs v0
           (upd c t { c.th t with todo := r, walk := none, obs := (c.th t).obs ++ [⟨w.acc, false, w.ok, (c.th t).lin⟩] }) := by
       intro hstop
-      refine inv_upd hI t _ (ht.finishWalk htodo hsafe heff _ (fun hwr => ht.walkOk hwr w hw) ?_)
+      refine inv_upd hI t _ (ht.finishWalk htodo hsafe heff _ rfl (fun hwr => ht.walkOk hwr w hw) ?_)
       intro hok
       obtain ⟨⟨v, hv, _⟩, hacc⟩ := ht.walk_ w hw hok
       refine ⟨v, hv, ?_⟩
@@ -565,7 +579,7 @@ theorem step_walk (hI : Inv esc args progs v0 c) {a : Step} (htodo : (c.th t).to
         refine
           { suffix := ht.suffix, safe_ := ht.safe_, wr := ht.wr, wlock := ht.wlock, dw := ht.dw, rd := ht.rd, iav_ := ht.iav_,
             av_ := ht.av_, walkHead := fun w' _ => ⟨r, by rcases ha with e | e <;> subst e <;> simp [htodo]⟩,
-            walk_ := ?_, walkOk := ?_, obs_ := ht.obs_, obsOk := ht.obsOk, eff_ := ht.eff_, crit := ht.crit }
+            walk_ := ?_, walkOk := ?_, obs_ := ht.obs_, obsOk := ht.obsOk, obsKv := ht.obsKv, eff_ := ht.eff_, crit := ht.crit }
         · intro w' hw' hok
           simp only [Option.some.injEq] at hw'
           subst hw'
@@ -652,7 +666,7 @@ theorem step_write (hI : Inv esc args progs v0 c) {a : Step} (htodo : (c.th t).t
         iav_ := fun e => ⟨by rw [hm']; decide, by rw [(ht.iav_ (hiav e).1).2]; exact (hiav e).2.symm⟩,
         av_ := fun e => by obtain ⟨_, _, _, h3, _⟩ := ht.av_ e; exact absurd hmw h3,
         walkHead := fun w hw' => by simp [hwalk] at hw', walk_ := fun w hw' => by simp [hwalk] at hw',
-        walkOk := fun _ w hw' => by simp [hwalk] at hw', obs_ := ht.obs_, obsOk := ht.obsOk,
+        walkOk := fun _ w hw' => by simp [hwalk] at hw', obs_ := ht.obs_, obsOk := ht.obsOk, obsKv := ht.obsKv,
         eff_ := fun e => (by have := ht.wr hw; rw [e] at this; cases this), crit := ?_ }
     intro _
     obtain ⟨h1, h2⟩ := ht.crit hw
@@ -819,7 +833,7 @@ theorem step_lock (hI : Inv esc args progs v0 c) (htodo : (c.th t).todo = .lock 
         { suffix := hsuf.1, safe_ := by rw [hm']; exact hs.2, wr := fun _ => rfl, wlock := fun _ => hsuf.2, dw := fun _ => rfl,
           rd := fun e => by rw [hc.2] at e; simp at e, iav_ := fun e => by simp at e, av_ := fun e => by simp at e,
           walkHead := fun w hw' => by simp [hwalk] at hw', walk_ := fun w hw' => by simp [hwalk] at hw',
-          walkOk := fun _ w hw' => by simp [hwalk] at hw', obs_ := ht.obs_, obsOk := fun e => by simp at e,
+          walkOk := fun _ w hw' => by simp [hwalk] at hw', obs_ := ht.obs_, obsOk := fun e => by simp at e, obsKv := ht.obsKv,
           eff_ := fun e => by simp at e, crit := ?_ }
       intro _
       refine ⟨fun e => (by have := ht.dw e; rw [hs.1.2] at this; cases this), fun last hl => ?_⟩
@@ -882,7 +896,7 @@ theorem step_unlock (hI : Inv esc args progs v0 c) (htodo : (c.th t).todo = .unl
       { suffix := hsuf.1, safe_ := by rw [hm']; exact hs.2, wr := fun e => by simp at e, wlock := ht.wlock, dw := fun _ => hwr,
         rd := fun e => by simp [hrd] at e, iav_ := fun e => by simp at e, av_ := fun e => by simp at e,
         walkHead := fun w hw' => by simp [hwalk] at hw', walk_ := fun w hw' => by simp [hwalk] at hw',
-        walkOk := fun _ w hw' => by simp [hwalk] at hw', obs_ := ?_, obsOk := fun e => by simp [hwr] at e,
+        walkOk := fun _ w hw' => by simp [hwalk] at hw', obs_ := ?_, obsOk := fun e => by simp [hwr] at e, obsKv := ht.obsKv,
         eff_ := fun e => by simp [hwr] at e, crit := fun e => by simp at e }
     intro o ho hok
     obtain ⟨v, hv, hres⟩ := ht.obs_ o ho hok
@@ -929,7 +943,7 @@ theorem step_rlock (hI : Inv esc args progs v0 c) (htodo : (c.th t).todo = .rloc
         { suffix := hsuf.1, safe_ := by rw [hm']; exact hs.2, wr := fun e => absurd e hmn.1, wlock := ht.wlock, dw := ht.dw,
           rd := fun _ => ?_, iav_ := fun e => by simp at e, av_ := fun e => by simp at e,
           walkHead := fun w hw' => by simp [hwalk] at hw', walk_ := fun w hw' => by simp [hwalk] at hw',
-          walkOk := fun _ w hw' => by simp [hwalk] at hw', obs_ := ht.obs_, obsOk := ht.obsOk, eff_ := ?_,
+          walkOk := fun _ w hw' => by simp [hwalk] at hw', obs_ := ht.obs_, obsOk := ht.obsOk, obsKv := ht.obsKv, eff_ := ?_,
           crit := fun e => absurd e hmn.1 }
       · show c.g.pubs.length - 1 + 1 = c.g.pubs.length
         have := List.length_pos_iff.2 hne
@@ -972,7 +986,7 @@ theorem step_runlock (hI : Inv esc args progs v0 c) (htodo : (c.th t).todo = .ru
       { suffix := hsuf.1, safe_ := by rw [hm']; exact hs.2, wr := fun e => (by rw [hwn] at e; cases e), wlock := ht.wlock, dw := ht.dw,
         rd := fun e => absurd e hnot, iav_ := fun e => by simp at e, av_ := ?_,
         walkHead := fun w hw' => by simp [hwalk] at hw', walk_ := fun w hw' => by simp [hwalk] at hw',
-        walkOk := fun _ w hw' => by simp [hwalk] at hw', obs_ := ht.obs_, obsOk := ht.obsOk, eff_ := ?_,
+        walkOk := fun _ w hw' => by simp [hwalk] at hw', obs_ := ht.obs_, obsOk := ht.obsOk, obsKv := ht.obsKv, eff_ := ?_,
         crit := fun e => by rw [hwn] at e; cases e }
     · intro e
       simp only [Bool.and_eq_true] at e
@@ -1041,6 +1055,53 @@ theorem inv_init (s0 : Shared α K) (hsafe : ∀ t, safe esc .n false false fals
         rd := fun e => by simp [initConf] at e, iav_ := fun e => by simp [initConf] at e, av_ := fun e => by simp [initConf] at e,
         walkHead := fun w e => by simp [initConf] at e, walk_ := fun w e => by simp [initConf] at e,
         walkOk := fun _ w e => by simp [initConf] at e, obs_ := fun o e => by simp [initConf] at e,
-        obsOk := fun _ o e => by simp [initConf] at e, eff_ := fun _ _ => rfl, crit := fun e => by simp [initConf] at e }
+        obsOk := fun _ o e => by simp [initConf] at e, obsKv := fun o e => by simp [initConf] at e, eff_ := fun _ _ => rfl, crit := fun e => by simp [initConf] at e }
+
+/-! ### the theorems about every schedule -/
+
+/-- what a lookup that never takes the write lock observes, and how the published views arise -/
+theorem schedule_facts (esc : Bool) (args : Nat → Arg α K) (progs : Nat → List Step) (s0 : Shared α K)
+    (hsafe : ∀ t, safe esc .n false false false (progs t) = true) (hfresh : esc = true → s0.hdr.ptr < s0.fresh)
+    (sched : List Nat) :
+    let c := runSched esc args (initConf progs s0) sched
+    c.g.done.Nodup ∧ c.g.pubs = serialPubs (fun t => effect (progs t) (args t)) c.g.done (view s0) ∧
+    (c.g.writer = none → c.g.pubs.getLast? = some (view c.g.sh)) ∧
+    (∀ t, Step.lock ∉ progs t → ∀ o ∈ (c.th t).obs, ∃ v, c.g.pubs[o.at_]? = some v ∧ o.res = answer (args t) o.kv v) ∧
+    (∀ t, Step.readIndex ∉ progs t → Step.readAlias ∉ progs t → ∀ o ∈ (c.th t).obs, o.kv = false) := by
+  intro c
+  have hI : Inv esc args progs (view s0) c := inv_run (inv_init s0 hsafe hfresh) sched
+  refine ⟨hI.glob.nodupD, hI.glob.ser, hI.glob.idle, fun t hl o ho => ?_, fun t h1 h2 o ho => ?_⟩
+  · have ht := hI.thr t
+    have hw : (c.th t).wrote = false := by
+      cases h : (c.th t).wrote with
+      | false => rfl
+      | true => exact absurd (ht.wlock h) hl
+    exact ht.obs_ o ho (ht.obsOk hw o ho)
+  · cases hk : o.kv with
+    | false => rfl
+    | true =>
+      rcases (hI.thr t).obsKv o ho hk with h | h
+      · exact absurd h h1
+      · exact absurd h h2
+
+/-- the regenerated programs do to the view what the declarative reference says -/
+theorem effect_progOf (cl : Call α K) (v : View α K) : effect (progOf cl) (argOf cl) v = specOf cl v := by
+  cases cl with
+  | entries mt => rfl
+  | all mt => rfl
+  | kv k => rfl
+  | removeAll => rfl
+  | add r key =>
+    cases key with
+    | none => rfl
+    | some k => simp [progOf, argOf, specOf, addRoute, effect, stepEffect, addRouteSpec, upsert_idem]
+
+theorem disciplined_progOf (cl : Call α K) : disciplined (progOf cl) = true := by
+  cases cl <;> simp only [progOf] <;> decide
+
+theorem lock_notMem_progOf (cl : Call α K) (h : isLookup cl = true) : Step.lock ∉ progOf cl := by
+  cases cl <;> simp only [progOf] <;> first | (simp [isLookup] at h; done) | decide
 
 end inv
+
+end MosnVerif.Model.VhostTable
